@@ -881,7 +881,12 @@ def reuse_steps(bright=False):
 
 def reuse_cases(E):
     return st.fixed_dictionaries(dict(atoms=sample_atoms(E), mass=logu(1e-6, 1e3), steps=reuse_steps(),
-                                      first=st.sampled_from(["NIST", "IAEA"])))
+                                      first=st.sampled_from(["NIST", "IAEA"]),
+                                      interrupt=st.lists(st.one_of(st.none(), st.integers(0, 6)), min_size=3, max_size=3)))
+
+
+class _CallbackFailed(Exception):
+    pass
 
 
 def step_env(steps, i, mass):
@@ -941,6 +946,28 @@ def check_reuse(ctx, v):
         except Exception as e:  # noqa
             sample_exception(ctx, E, e, base_failed, envd, classes, formula, case)
             return
+        # an interrupted calculation first: the user's abundance callback raises for the k-th natural element of
+        # the formula (its data are missing, say); the caller catches that and goes on with the valid request below,
+        # which must not see anything of the abandoned one
+        k = (v.get("interrupt") or [None] * 3)[i % 3]
+        naturals = []
+        for sp, _ in atoms:
+            if not sp[1] and sp[0] not in ("D", "T") and sp[0] not in naturals:
+                naturals.append(sp[0])
+        if k is not None and naturals:
+            victim = naturals[k % len(naturals)]
+
+            def failing(iso, _real=abundance, _victim=victim):
+                if iso.symbol == _victim:
+                    raise _CallbackFailed(_victim)
+                return _real(iso)
+            try:
+                reused.calculate_activation(environment, exposure=envd["exposure"] * 2, rest_times=[0, 1.5],
+                                            abundance=failing)
+            except _CallbackFailed:
+                ctx.count("reuse:interrupted-by-callback")
+            except Exception:  # noqa  (a row-level exception of the library came first; judged below)
+                ctx.count("reuse:interrupted-by-library")
         try:
             with unchanged("c14", case, rest_times=L):
                 reused.calculate_activation(environment, exposure=envd["exposure"], rest_times=L, abundance=abundance)
